@@ -6,7 +6,7 @@ has a `render` that instantiates the `quote!` template.
 -/
 namespace DX
 
-def autoDerived : GToks := genAttr ["automatically_derived"]
+def autoDerived : GToks := allowUserLints +++ genAttr ["automatically_derived"]
 
 
 /-- `impl<G> Trait for Self where … { body }` -/
@@ -246,16 +246,22 @@ def isMaybeBound : TBound → Bool
   | .trait q _ _ => q
   | .lt _ => false
 
-/-- `may_be_unsized`: a slice, `str`, a trait object, or a type parameter declared `?Sized` -/
+/-- the type inside any number of parentheses (`(dyn A + B)` is what `&'a $t` becomes for `$t = dyn A + B`, F36) -/
+def Ty.stripParen : Ty → Ty
+  | .paren t => t.stripParen
+  | t => t
+
+/-- `may_be_unsized`: a slice, `str`, a trait object, or a type parameter declared `?Sized` — seen through parentheses,
+names compared without their `r#` prefix (F37) -/
 def mayBeUnsized (ty : Ty) (g : Generics) : Bool :=
-  match ty with
+  match ty.stripParen with
   | .slice _ => true
   | .dynT _ _ _ => true
   | .path false [.mk i []] =>
-    i == "str" ||
-    (g.params.any fun | .ty n bs _ => n == i && bs.any isMaybeBound | _ => false) ||
+    unraw i == "str" ||
+    (g.params.any fun | .ty n bs _ => unraw n == unraw i && bs.any isMaybeBound | _ => false) ||
     (g.wheres.any fun
-      | .ty _ (.path false [.mk j []]) bs => j == i && bs.any isMaybeBound
+      | .ty _ (.path false [.mk j []]) bs => unraw j == unraw i && bs.any isMaybeBound
       | _ => false)
   | _ => false
 
